@@ -638,19 +638,25 @@ impl TryFrom<&mut Peekable<Lexer>> for ParserNode {
                                     ))
                                 } else if let Ok(tmp) = lex.peek_any().and_then(|next| next.as_reg()) {
                                     lex.get_any()?;
+                                    // `lui tmp, hi` / `sw rs2, lo(tmp)`: the
+                                    // temporary holds the upper part of the
+                                    // address only, the store adds the rest
+                                    let address = imm.get().value();
+                                    let low = (address << 20) >> 20;
+                                    let high = address.wrapping_sub(low);
                                     Err(LexError::NeedTwoNodes(
                                         Box::new(ParserNode::new_iarith(
-                                            With::new(IArithType::Addi, next_node.clone()),
+                                            With::new(IArithType::Lui, next_node.clone()),
                                             tmp.clone(),
                                             With::new(Register::X0, next_node.clone()),
-                                            imm,
+                                            With::new(Imm::new(high), imm.token().clone()),
                                             lex.raw_token.clone(),
                                         )),
                                         Box::new(ParserNode::new_store(
-                                            With::new(inst, next_node.clone()),
+                                            With::new(inst, next_node),
                                             tmp,
                                             rs2,
-                                            With::new(Imm::new(0), next_node),
+                                            With::new(Imm::new(low), imm.token().clone()),
                                             lex.raw_token,
                                         )),
                                     ))
